@@ -246,11 +246,9 @@ def _protocol_worker(
     # time_points_per_step points per protocol step
     t_start = 0.0
     time_points = [t_start]
-    for t_end in protocol.index:
-        time_points.extend(
-            np.linspace(t_start, t_end.total_seconds(), time_points_per_step + 1)[1:]
-        )
-        t_start = t_end.total_seconds()
+    for t_end in protocol.index.total_seconds():  # type: ignore
+        time_points.extend(np.linspace(t_start, t_end, time_points_per_step + 1)[1:])
+        t_start = t_end
     return res.default(
         lambda: Simulation.default(model=model, time_points=np.array(time_points))
     )
